@@ -6,7 +6,7 @@ From Coq Require Import NArith.
 
 Definition exec_sha (x : bytes) : bytes := bs "S:" ++ x.
 Definition exec_pwhash (p : bytes) : bytes := bs "$P$" ++ hex_encode p.
-Definition exec_pwcheck (h q : bytes) : bool := beqb h (exec_pwhash q).
+Definition exec_pwcheck (h q : bytes) : bool := (length q <=? 72)%nat && beqb h (exec_pwhash q).
 Definition XC : crypto := mkCrypto exec_sha exec_pwhash exec_pwcheck.
 
 Definition hex_pair_decode (h l : byte) : option byte :=
@@ -44,10 +44,12 @@ Lemma exec_laws : crypto_laws XC.
 Proof.
   split; simpl.
   - intros a b H. unfold exec_sha in H. apply app_inv_head in H. exact H.
-  - intros p q _ _. unfold exec_pwcheck. rewrite beqb_eq. unfold exec_pwhash. split.
+  - intros p q _ Hq. unfold exec_pwcheck. unfold pw_dom in Hq. apply Nat.leb_le in Hq. rewrite Hq. cbn [andb].
+    rewrite beqb_eq. unfold exec_pwhash. split.
     + intros H. apply app_inv_head in H. apply hex_encode_inj. exact H.
     + intros ->. reflexivity.
-  - intros h q H. unfold exec_pwcheck. apply beqb_neq. apply H.
+  - intros h q H. unfold exec_pwcheck. rewrite (proj2 (beqb_neq _ _)); [apply andb_false_r|]. apply H.
+  - intros h q Hl. unfold exec_pwcheck. apply Nat.leb_gt in Hl. rewrite Hl. reflexivity.
   - intros p. unfold exec_pwhash. pose proof (hex_encode_nocomma p) as H.
     unfold bmem_byte in *. simpl. exact H.
 Qed.
